@@ -296,6 +296,10 @@ _mtbl_compress_snappy(
 {
 	snappy_status res;
 
+	/* The snappy format stores the uncompressed length in 32 bits. */
+	if (input_size > UINT32_MAX)
+		return (mtbl_res_failure);
+
 	*output_size = snappy_max_compressed_length(input_size);
 	*output = my_malloc(*output_size);
 	res = snappy_compress((const char *) input, input_size,
